@@ -153,7 +153,7 @@ CLAIMS["C16"] = dict(
          "fix_string spools exactly the given characters without newline translation, runs `fix <spool>` once through the common entry "
          "point, returns the text read back from that file untranslated and removes the spool on every exit (D18, D19 fixed); the "
          "stdin / scan_string spool is written as UTF-8, the encoding it is read back with (D20 fixed).",
-    note=TB + "NOT covered: scan_path / fix_path / fix_string wrappers, OS newline translation ('\\r' is a line end for a file, "
+    note=TB + "NOT covered: scan_path / fix_path / list_path wrappers, OS newline translation ('\\r' is a line end for a file, "
               "not for a string); the two providers are each proved against 'lines end at newline characters', their equality is the "
               "composition of the two contracts (on paper).")
 
